@@ -292,12 +292,24 @@ def _compare_services(prog: Program, run: Run) -> None:
             continue
         a, b = c.args[0].id, c.args[1].id
         enc = [l for l in loops if any(y is c for y in ast.walk(l))]
+        zipped: Set[int] = set()
 
         def source(var: str) -> Optional[Tuple[ast.For, str]]:
             for l in enc:
                 t = l.target
                 names = [n.id for n in ast.walk(t) if isinstance(n, ast.Name)]
                 if var in names:
+                    # `for a, b in zip(X, Y)` (also under enumerate): a ranges over X, b over Y
+                    it, tg = l.iter, t
+                    if isinstance(it, ast.Call) and call_name(it) == "enumerate" and it.args and \
+                            isinstance(tg, ast.Tuple) and len(tg.elts) == 2:
+                        it, tg = it.args[0], tg.elts[1]
+                    if isinstance(it, ast.Call) and call_name(it) == "zip" and isinstance(
+                            tg, ast.Tuple) and len(tg.elts) == len(it.args):
+                        for e_, a_ in zip(tg.elts, it.args):
+                            if isinstance(e_, ast.Name) and e_.id == var:
+                                zipped.add(id(l))
+                                return l, ast.unparse(a_)
                     return l, ast.unparse(l.iter)
             return None
         sa_, sb_ = source(a), source(b)
@@ -336,7 +348,7 @@ def _compare_services(prog: Program, run: Run) -> None:
                     lt, rt = ast.unparse(t.left), ast.unparse(t.comparators[0])
                     if (lt in na and rt in nb) or (lt in nb and rt in na):
                         idx_ok = True
-        if sa_[0] is sb_[0] and "zip(" in ia:
+        if sa_[0] is sb_[0] and ("zip(" in ia or id(sa_[0]) in zipped):
             idx_ok = True
         if not idx_ok:
             run.violation(R, "Comparison.compare_services", "not-paired-by-position",
